@@ -79,8 +79,6 @@ Fixpoint ty_eqb (a b : ty) {struct a} : bool :=
     | x :: xs', y :: ys' => ty_eqb x y && list_eqb xs' ys'
     | _, _ => false
     end in
-  let fix mem (x : ty) (ys : list ty) {struct ys} : bool :=     (* x occurs in ys; recursion on a is via [subset] *)
-    match ys with [] => false | y :: ys' => false end in
   match a, b with
   | TAny, TAny => true
   | TNothing, TNothing => true
@@ -346,6 +344,82 @@ Fixpoint nf (t : ty) : ty :=
 
 Definition def_ty (d : tydef) : ty :=
   match d with DConst t => t | DAlias t => TGeneric type_id [t] end.
+
+(* ------------------------------------------------------------------------------------------ *)
+(* The emitted dialect: the type expressions a stub written by pytype contains for a constant, as far as the
+   conversion is concerned.  [wf] is the hypothesis of the round-trip theorem.
+     - a union has >= 2 members, none of them Any / nothing / a union, with pairwise different base classes
+       (optimize.CombineContainers merges same-base containers, JoinTypes absorbs the rest);
+     - a generic has exactly as many parameters as the class's template;
+     - NOT in the dialect, because the round trip loses them (theorems *_refuted): bare `type` and `type[Any]`
+       (an instance of `type[Any]` is converted to Unsolvable), `type[nothing]`, and `nothing` below `type[...]`. *)
+
+Definition base (t : ty) : cid :=
+  match t with
+  | TClass c | TGeneric c _ => c
+  | TTuple _ => tuple_id
+  | TCallable _ _ => callable_id
+  | _ => 0
+  end.
+
+(* the key under which JoinTypes can at most identify two emitted members *)
+Definition tkey (x : ty) : cid * cid :=
+  match x with
+  | TGeneric c [a] => if c =? type_id then (c, base a) else (c, 0)
+  | _ => (base x, 0)
+  end.
+
+Definition ubases (u : ty) : list cid := match u with TUnion us => map base us | _ => [base u] end.
+
+Definition mkeys1 (t : ty) : list (cid * cid) :=
+  match t with
+  | TNothing => []
+  | TGeneric c [u] => if c =? type_id then map (pair type_id) (ubases u) else [(c, 0)]
+  | _ => [(base t, 0)]
+  end.
+Definition mkeys (t : ty) : list (cid * cid) :=
+  match t with TUnion ts => flat_map mkeys1 ts | _ => mkeys1 t end.
+
+Definition key_eqb (a b : cid * cid) : bool := (fst a =? fst b) && (snd a =? snd b).
+Fixpoint nodupb {A} (eqb : A -> A -> bool) (l : list A) : bool :=
+  match l with [] => true | x :: l' => negb (existsb (eqb x) l') && nodupb eqb l' end.
+
+Definition member_ok (t : ty) : bool :=
+  match t with TAny | TNothing | TUnion _ | TError => false | _ => true end.
+
+(* no `nothing` anywhere *)
+Fixpoint nfree (t : ty) : bool :=
+  match t with
+  | TNothing | TError => false
+  | TGeneric _ ps | TTuple ps | TUnion ps => forallb nfree ps
+  | TCallable a r => forallb nfree a && nfree r
+  | _ => true
+  end.
+
+Section Dialect.
+Variable arity : cid -> nat.
+Fixpoint wf (t : ty) : bool :=
+  match t with
+  | TAny | TNothing => true
+  | TError => false
+  | TClass c => negb (c =? 0) && negb (c =? type_id)
+  | TGeneric c ps =>
+      negb (c =? 0) && (length ps =? arity c)%nat && (0 <? arity c)%nat && forallb wf ps &&
+      (if c =? type_id
+       then match ps with
+            | [u] => negb (is_any u) && nfree u && nodupb N.eqb (ubases u)
+            | _ => false
+            end
+       else true)
+  | TTuple ps => forallb wf ps
+  | TCallable a r => forallb wf a && wf r
+  | TUnion ts =>
+      (2 <=? length ts)%nat && forallb wf ts && forallb member_ok ts &&
+      nodupb N.eqb (map base ts) && nodupb key_eqb (flat_map mkeys1 ts)
+  end.
+(* a module-level constant additionally is not `nothing` *)
+Definition wf_top (t : ty) : bool := wf t && negb (is_nothing t).
+End Dialect.
 
 (* a total order on types, only used to print unions in a canonical order *)
 Definition ty_rank (t : ty) : N :=
